@@ -60,7 +60,7 @@ def run(tier, seed, replay=None):
         asym_ = rng.random() < 0.4      # knot vectors that are not symmetric under reversal (conforming: the same along each lattice axis)
         ref = rng.choice([0, 0, 1, 2]) if pd == 2 else rng.choice([0, 0, 1])
         rep_knot = order >= 3 and rng.random() < 0.5
-        rat18 = rng.choice([False, False, False, True, 'mixed'])     # rational, or rational and polynomial patches side by side
+        rat18 = rng.choice([False, False, False, True, 'mixed', 'weighted'])     # rational, or rational and polynomial patches side by side
         ring = rng.random() < 0.3
         if ring:
             # complexes closing around an axis: a patch adjacent to itself (one interface between its two ends), two
@@ -87,7 +87,8 @@ def run(tier, seed, replay=None):
         bad = None
         for node in model.catalogue.top_nodes():
             nums = np.asarray(node.cp_numbers)
-            cps = np.asarray(node.obj.controlpoints)[..., :cx['dim']]
+            cps = np.asarray(node.obj.controlpoints)
+            cps = cps[..., :-1] / cps[..., -1:] if node.obj.rational else cps[..., :cx['dim']]    # the points, not the storage
             if nums.shape != cps.shape[:-1]:
                 bad = 'cp_numbers has shape %s, the control net %s' % (nums.shape, cps.shape[:-1])
                 break
@@ -115,7 +116,8 @@ def run(tier, seed, replay=None):
             ids = {}
             plist = []
             for node in model.catalogue.top_nodes():
-                cps = np.asarray(node.obj.controlpoints)[..., :cx['dim']].reshape(-1, cx['dim'])
+                cps = np.asarray(node.obj.controlpoints)
+                cps = (cps[..., :-1] / cps[..., -1:] if node.obj.rational else cps[..., :cx['dim']]).reshape(-1, cx['dim'])
                 plist.append(([ids.setdefault(key(q), len(ids)) for q in cps], np.asarray(node.cp_numbers).reshape(-1).tolist()))
             l1.append((args, plist, model.ncps))
         # cells
